@@ -29,37 +29,31 @@ fn apply_filters_threshold_c4() {
 /// C14.wrap: `ska distance` ignores k-mers below the frequency threshold entirely (they are neither
 /// compared nor counted as matching constant sites); constant sites among the remaining k-mers are
 /// counted as matches; the rest is handed to the pairwise computation.
-/// One row x 3 samples; FREQ2 = 2 x min_freq (0, 1 or 2) and the ambiguity switch are concrete per harness.
-fn distance_wrapper<const C: usize, const FREQ2: usize, const FILT_AMBIG: bool>() {
-    let mut row = [0u8; C];
+/// One row x C samples; which samples have the k-mer (PRES bit mask), FREQ2 = 2 x min_freq (0, 1 or 2) and the
+/// ambiguity switch are concrete per harness; the bases are symbolic.
+fn distance_wrapper<const C: usize, const PRES: u8, const FREQ2: usize, const FILT_AMBIG: bool>() {
+    let mut row = [b'-'; C];
+    let mut npres = 0;
     let mut j = 0;
-    while j < C { row[j] = any_plain_sym(); j += 1; }
-    kani::assume(present::<C>(&row) >= 1);
+    while j < C { if (PRES >> j) & 1 == 1 { let b: u8 = kani::any(); kani::assume(matches!(b, b'A' | b'C' | b'G' | b'T')); row[j] = b; npres += 1; } j += 1; }
     let min_freq = FREQ2 as f64 / 2.0;
-    let mut a = mk_array::<1, C>(&[42u64], &[row]);
+    let mut a = mk_array_counts::<1, C>(&[42u64], &[row], &[npres]);
     let thr = (C * FREQ2 + 1) / 2; // ceil(C x min_freq)
-    let passes_freq = present::<C>(&row) >= thr;
+    let passes_freq = npres >= thr;
     let constant_site = distinct::<C>(&row, |_| true) == 1;
     let exp_constant = if passes_freq && constant_site { 1.0 } else { 0.0 };
     let exp_rows = if passes_freq && !constant_site { 1 } else { 0 };
-    kani::cover!(!passes_freq, "a k-mer below the frequency threshold");
-    kani::cover!(passes_freq && constant_site, "a constant site");
-    kani::cover!(exp_rows == 1 && present::<C>(&row) == C - 1, "a variable site with a missing sample");
+    if passes_freq && npres == C { kani::cover!(constant_site, "a constant site"); }
+    if passes_freq { kani::cover!(!constant_site, "a variable site"); } else { kani::cover!(true, "a k-mer below the frequency threshold"); }
     stub_io(true);
     expect_distance(exp_constant, exp_rows);
     // the recorder standing in for MergeSkaArray::distance checks (constant, rows) and ends the path
     distance(&mut a, &None, min_freq, FILT_AMBIG, 1);
     assert!(false, "must-not-reach: the pairwise computation was never invoked");
 }
-macro_rules! gen_dw { ($($name:ident: $c:expr, $f:expr, $a:expr;)*) => { $(
+macro_rules! gen_dw { ($($name:ident: $c:expr, $p:expr, $f:expr, $a:expr;)*) => { $(
     #[kani::proof]
     #[kani::unwind(7)]
-    fn $name() { distance_wrapper::<$c, $f, $a>(); }
+    fn $name() { distance_wrapper::<$c, $p, $f, $a>(); }
 )* }; }
-gen_dw! {
-    dist_wrap_c2_f0_ambig: 2, 0, true; dist_wrap_c2_f0_noambig: 2, 0, false;
-    dist_wrap_c2_f1_ambig: 2, 1, true; dist_wrap_c2_f1_noambig: 2, 1, false;
-    dist_wrap_c2_f2_ambig: 2, 2, true; dist_wrap_c2_f2_noambig: 2, 2, false;
-    dist_wrap_c3_f0_noambig: 3, 0, false; dist_wrap_c3_f1_noambig: 3, 1, false; dist_wrap_c3_f2_noambig: 3, 2, false;
-    dist_wrap_c3_f1_ambig: 3, 1, true;
-}
+include!("wrap_gen.inc");
